@@ -203,10 +203,29 @@ func admissible(s *Spec) bool {
 	}
 	if s.Kind == "enum" {
 		nums := s.enumNumbers()
-		for _, n := range append(append([]string{}, s.In...), s.NIn...) {
+		names := append(append([]string{}, s.In...), s.NIn...)
+		if s.LR != nil {
+			// default filters of the list rules must name options too (compile error otherwise)
+			names = append(names, s.LR.DefaultFilters...)
+		}
+		for _, n := range names {
 			if _, ok := nums[s.enumShort(n)]; !ok {
 				return false
 			}
+		}
+	}
+	return true
+}
+
+// enumFiltersOK: every default filter of an enum field's list rules names an option of the enum.
+func enumFiltersOK(s *Spec) bool {
+	if s.Kind != "enum" || s.LR == nil {
+		return true
+	}
+	nums := s.enumNumbers()
+	for _, n := range s.LR.DefaultFilters {
+		if _, ok := nums[s.enumShort(n)]; !ok {
+			return false
 		}
 	}
 	return true
@@ -236,6 +255,9 @@ func execSchema(h *vh.H, op string) string {
 		}
 		specs = append(specs, s)
 		h.Count("schema.kind." + s.Kind + map[bool]string{true: ".array", false: ""}[s.Arr])
+		if s.Kind == "enum" && s.LR != nil && len(s.LR.DefaultFilters) > 0 {
+			h.Count("schema.enum.default-filters." + map[bool]string{true: "options", false: "not-options(inadmissible)"}[enumFiltersOK(s)])
+		}
 	}
 	file, err := compileJ5s(FileText(objDesc, specs))
 	if err != nil {
